@@ -23,7 +23,7 @@ func (m *Mutex) Lock() {
 		m.real.Lock()
 		return
 	}
-	vsched.Op("lock", func() bool { return !m.held })
+	vsched.OpOn(m, "lock", func() bool { return !m.held })
 	m.held = true
 	vsched.Res()
 }
@@ -47,7 +47,7 @@ func (m *RWMutex) Lock() {
 		m.real.Lock()
 		return
 	}
-	vsched.Op("lock", func() bool { return !m.writer && m.readers == 0 })
+	vsched.OpOn(m, "lock", func() bool { return !m.writer && m.readers == 0 })
 	m.writer = true
 	vsched.Res()
 }
@@ -65,7 +65,7 @@ func (m *RWMutex) RLock() {
 		m.real.RLock()
 		return
 	}
-	vsched.Op("rlock", func() bool { return !m.writer })
+	vsched.OpOn(m, "rlock", func() bool { return !m.writer })
 	m.readers++
 	vsched.Res()
 }
